@@ -574,3 +574,45 @@ pub fn h_c07_overlapping_spills() {
     check_kf("C07.overlap.same_values", vals(&a) == vals(&b), "KF-C07-1", first_a3 & eval_each);
     reach("C07.overlap");
 }
+
+/// a value typed into a cell of a standing spill: the same inputs evaluated once give a blocked array and an otherwise
+/// empty column; evaluating between the two edits must give the same
+pub fn h_c07_value_typed_into_a_spill() {
+    let at = any_i32_in(2, 4);
+    let horizontal = any_bool();
+    let formula = if horizontal { "=SEQUENCE(1,4)" } else { "=SEQUENCE(4)" };
+    let pos = |k: i32| if horizontal { (1, k) } else { (k, 1) };
+    let build = |eval_between: bool| -> Option<Model<'static>> {
+        let mut model = model_from_workbook(workbook_with_cells(vec![empty_sheet("Sheet1", 1)]));
+        if model.set_user_input(0, 1, 1, formula.to_string()).is_err() { return None; }
+        if eval_between { model.evaluate(); }
+        let (r, c) = pos(at);
+        if model.set_user_input(0, r, c, "100".to_string()).is_err() { return None; }
+        model.evaluate();
+        Some(model)
+    };
+    let (once, between) = (build(false), build(true));
+    check("C07.typed_into_spill.entered", once.is_some() & between.is_some());
+    let (a, b) = match (once, between) { (Some(a), Some(b)) => (a, b), _ => return };
+    let vals = |m: &Model| { let g = |k: i32| { let (r, c) = pos(k); m.get_cell_value_by_index(0, r, c) }; [g(1), g(2), g(3), g(4), g(5)] };
+    check("C07.typed_into_spill.same_values", vals(&a) == vals(&b));
+    reach("C07.typed_into_spill");
+}
+
+/// a dynamic array that reads only the spilled cells of a later one (A1 = C2:D2, B2 = SEQUENCE(1,3)): the first
+/// evaluation already gives the final values - a second one changes nothing, and entering B2 first gives the same
+pub fn h_c07_array_reading_a_later_spill() {
+    let b2_first = any_bool();
+    let mut model = model_from_workbook(workbook_with_cells(vec![empty_sheet("Sheet1", 1)]));
+    let typed = if b2_first { model.set_user_input(0, 2, 2, "=SEQUENCE(1,3)".to_string()).is_ok() && model.set_user_input(0, 1, 1, "=C2:D2".to_string()).is_ok() }
+                else { model.set_user_input(0, 1, 1, "=C2:D2".to_string()).is_ok() && model.set_user_input(0, 2, 2, "=SEQUENCE(1,3)".to_string()).is_ok() };
+    check("C07.later_spill.entered", typed);
+    if !typed { return; }
+    model.evaluate();
+    let vals = |m: &Model| [m.get_cell_value_by_index(0, 1, 1), m.get_cell_value_by_index(0, 1, 2), m.get_cell_value_by_index(0, 2, 3), m.get_cell_value_by_index(0, 2, 4)];
+    check("C07.later_spill.first_evaluation_is_final", (vals(&model)[0] == Ok(CellValue::Number(2.0))) & (vals(&model)[1] == Ok(CellValue::Number(3.0))));
+    let first = vals(&model);
+    model.evaluate();
+    check("C07.later_spill.second_evaluation_same", vals(&model) == first);
+    reach("C07.later_spill");
+}
